@@ -8,6 +8,8 @@
 //! password the server confirmed to this machine, whose key sealed the cached credential).
 
 use crate::edge::{self, group, user_token, Machine, Peer, USER};
+use sparkle_resolver_common::resolver::AuthSession;
+use sparkle_unix_common::unix_proto::{PamAuthRequest, PamAuthResponse, PamServiceInfo};
 use kv_engine::forkdfs::fork_map;
 use kv_engine::{Ctx, Level};
 use serde_json::{json, Value};
@@ -37,6 +39,10 @@ enum Op {
     Rotate,
     /// server unreachable, login with PW[i]
     Down(Down, usize),
+    /// a login is opened while the server is unreachable and left at the password prompt
+    Open(Down),
+    /// the login left open is answered with PW[i]
+    Close(usize),
     /// the user logs in on another machine (own TPM, own machine key) and that machine's cached
     /// record replaces this machine's
     Transplant,
@@ -47,8 +53,27 @@ fn op_str(o: &Op) -> String {
         Op::Up(i) => format!("up:{i}"),
         Op::ChangePw => "chg".into(),
         Op::Rotate => "rotate".into(),
-        Op::Down(d, i) => format!("down:{}:{i}", match d { Down::Marked => "marked", Down::Refused => "refused", Down::Unnoticed => "unnoticed" }),
+        Op::Down(d, i) => format!("down:{}:{i}", down_str(d)),
         Op::Transplant => "transplant".into(),
+        Op::Open(d) => format!("open:{}", down_str(d)),
+        Op::Close(i) => format!("close:{i}"),
+    }
+}
+
+fn down_str(d: &Down) -> &'static str {
+    match d {
+        Down::Marked => "marked",
+        Down::Refused => "refused",
+        Down::Unnoticed => "unnoticed",
+    }
+}
+
+fn down_parse(s: &str) -> Option<Down> {
+    match s {
+        "marked" => Some(Down::Marked),
+        "refused" => Some(Down::Refused),
+        "unnoticed" => Some(Down::Unnoticed),
+        _ => None,
     }
 }
 
@@ -58,7 +83,9 @@ fn op_parse(s: &str) -> Option<Op> {
         ["up", i] => Some(Op::Up(i.parse().ok()?)),
         ["chg"] => Some(Op::ChangePw),
         ["rotate"] => Some(Op::Rotate),
-        ["down", d, i] => Some(Op::Down(match *d { "marked" => Down::Marked, "refused" => Down::Refused, "unnoticed" => Down::Unnoticed, _ => return None }, i.parse().ok()?)),
+        ["down", d, i] => Some(Op::Down(down_parse(d)?, i.parse().ok()?)),
+        ["open", d] => Some(Op::Open(down_parse(d)?)),
+        ["close", i] => Some(Op::Close(i.parse().ok()?)),
         ["transplant"] => Some(Op::Transplant),
         _ => None,
     }
@@ -82,123 +109,230 @@ fn rt() -> tokio::runtime::Runtime {
     tokio::runtime::Builder::new_current_thread().enable_all().build().unwrap_or_else(|_| kv_engine::ctx::machinery_exit("tokio runtime"))
 }
 
-/// runs one sequence; returns JSON {"labels":[..], "viol":[[key, what, step]..]} or {"error":..}
-fn run_seq(dir: &std::path::Path, tag: usize, seq: &[Op]) -> Value {
-    let db0 = dir.join(format!("c44-{tag}-m0.sqlite")).to_string_lossy().to_string();
-    let db1 = dir.join(format!("c44-{tag}-m1.sqlite")).to_string_lossy().to_string();
-    let out: Result<Value, String> = rt().block_on(async {
-        let tok = user_token(vec![group(0, "g0")], true);
-        let peer = Peer::start(PW[0], Some(tok))?;
+/// one worker's laboratory: the scripted server, this machine, and (made at first use) the other
+/// machine. Between sequences the caches of both machines are emptied and the server is reset;
+/// the TPMs, machine keys and HMAC keys stay, as they do on a machine that keeps running.
+struct Lab {
+    rt: tokio::runtime::Runtime,
+    peer: Peer,
+    m0: Machine,
+    m1: Option<Machine>,
+    db0: String,
+    db1: String,
+    allowed: Vec<String>,
+}
+
+impl Lab {
+    fn new(dir: &std::path::Path, tag: usize) -> Result<Lab, String> {
+        let db0 = dir.join(format!("c44-{tag}-{}-m0.sqlite", std::process::id())).to_string_lossy().to_string();
+        let db1 = dir.join(format!("c44-{tag}-{}-m1.sqlite", std::process::id())).to_string_lossy().to_string();
+        let rt = rt();
         let allowed = vec!["g0".to_string()];
-        let m0: Machine = edge::machine(&db0, &peer.addr, &allowed).await?;
-        let mut m1: Option<Machine> = None;
-        // reference model
-        let mut server_pw = 0usize;
-        let mut last_verified: Option<usize> = None;
-        let mut ever_verified: Vec<usize> = Vec::new();
-        let mut sealed_here = false;
-        let mut labels = Vec::new();
-        let mut viol: Vec<Value> = Vec::new();
-        for (step, op) in seq.iter().enumerate() {
-            if *op == Op::Rotate {
-                server_pw = 1 - server_pw;
-                peer.with(|s| s.password = PW[server_pw].to_string());
+        let peer = Peer::start(PW[0], Some(user_token(vec![group(0, "g0")], true)))?;
+        let m0 = rt.block_on(edge::machine(&db0, &peer.addr, &allowed))?;
+        Ok(Lab { rt, peer, m0, m1: None, db0, db1, allowed })
+    }
+
+    fn reset(&mut self) -> Result<(), String> {
+        self.peer.with(|s| {
+            s.up = true;
+            s.password = PW[0].to_string();
+            s.log.clear();
+        });
+        let Lab { rt, m0, m1, .. } = self;
+        rt.block_on(async {
+            m0.resolver.clear_cache().await.map_err(|_| "clear_cache".to_string())?;
+            if let Some(o) = m1.as_ref() {
+                o.resolver.clear_cache().await.map_err(|_| "clear_cache (other machine)".to_string())?;
             }
-            let op = &(if *op == Op::Rotate { Op::Up(server_pw) } else { *op });
-            match op {
-                Op::Rotate => {}
-                Op::ChangePw => {
+            Ok(())
+        })
+    }
+
+    /// runs one sequence; returns JSON {"labels":[..], "viol":[[key, what, step]..]} or {"error":..}
+    fn run(&mut self, seq: &[Op]) -> Value {
+        if let Err(e) = self.reset() {
+            return json!({"error": e});
+        }
+        let Lab { rt, peer, m0, m1, db0, db1, allowed } = self;
+        let out: Result<Value, String> = rt.block_on(async {
+            // reference model
+            let mut server_pw = 0usize;
+            let mut last_verified: Option<usize> = None;
+            let mut ever_verified: Vec<usize> = Vec::new();
+            let mut sealed_here = false;
+            // a login that has been opened and not answered yet: the session, and the model as it
+            // was when the session was opened
+            let mut pending: Option<(AuthSession, Option<usize>, bool)> = None;
+            let (_shutdown_tx, _) = tokio::sync::broadcast::channel::<()>(1);
+            let mut labels = Vec::new();
+            let mut viol: Vec<Value> = Vec::new();
+            for (step, op) in seq.iter().enumerate() {
+                if *op == Op::Rotate {
                     server_pw = 1 - server_pw;
                     peer.with(|s| s.password = PW[server_pw].to_string());
-                    labels.push("ok".to_string());
                 }
-                Op::Transplant => {
-                    peer.with(|s| s.up = true);
-                    if m1.is_none() {
-                        m1 = Some(edge::machine(&db1, &peer.addr, &allowed).await?);
+                let op = &(if *op == Op::Rotate { Op::Up(server_pw) } else { *op });
+                match op {
+                    Op::Rotate => {}
+                    Op::ChangePw => {
+                        server_pw = 1 - server_pw;
+                        peer.with(|s| s.password = PW[server_pw].to_string());
+                        labels.push("ok".to_string());
                     }
-                    let Some(o) = m1.as_ref() else { return Err("m1".into()) };
-                    o.resolver.mark_next_check_now(SystemTime::now()).await;
-                    if !o.resolver.test_connection().await {
-                        return Err("the other machine cannot reach the scripted server".into());
+                    Op::Transplant => {
+                        peer.with(|s| s.up = true);
+                        if m1.is_none() {
+                            *m1 = Some(edge::machine(db1, &peer.addr, allowed).await?);
+                        }
+                        let Some(o) = m1.as_ref() else { return Err("m1".into()) };
+                        o.resolver.mark_next_check_now(SystemTime::now()).await;
+                        if !o.resolver.test_connection().await {
+                            return Err("the other machine cannot reach the scripted server".into());
+                        }
+                        let r = o.resolver.pam_account_authenticate(USER, OffsetDateTime::now_utc(), PW[server_pw]).await;
+                        if r != Ok(Some(true)) {
+                            return Err(format!("online login on the other machine: {r:?}"));
+                        }
+                        let Some((row, exp)) = edge::cached_row(db1).await? else { return Err("the other machine cached nothing".into()) };
+                        edge::plant_row(db0, &row, exp).await?;
+                        sealed_here = false;
+                        labels.push("ok".to_string());
                     }
-                    let r = o.resolver.pam_account_authenticate(USER, OffsetDateTime::now_utc(), PW[server_pw]).await;
-                    if r != Ok(Some(true)) {
-                        return Err(format!("online login on the other machine: {r:?}"));
-                    }
-                    let Some((row, exp)) = edge::cached_row(&db1).await? else { return Err("the other machine cached nothing".into()) };
-                    edge::plant_row(&db0, &row, exp).await?;
-                    sealed_here = false;
-                    labels.push("ok".to_string());
-                }
-                Op::Up(i) | Op::Down(_, i) => {
-                    match op {
-                        Op::Up(_) => {
-                            peer.with(|s| s.up = true);
-                            m0.resolver.mark_next_check_now(SystemTime::now()).await;
-                            let _ = m0.resolver.test_connection().await;
-                        }
-                        Op::Down(Down::Marked, _) => {
-                            peer.with(|s| s.up = false);
-                            m0.resolver.mark_offline().await;
-                        }
-                        Op::Down(Down::Refused, _) => {
-                            peer.with(|s| s.up = false);
-                            m0.resolver.mark_next_check_now(SystemTime::now()).await;
-                        }
-                        _ => {
-                            peer.with(|s| s.up = false);
+                    Op::Open(d) => {
+                        set_down(peer, m0, *d).await;
+                        let info = PamServiceInfo { service: "sshd".to_string(), tty: None, rhost: None };
+                        match m0.resolver.pam_account_authenticate_init(USER, &info, OffsetDateTime::now_utc(), _shutdown_tx.subscribe()).await {
+                            Ok((sess, PamAuthResponse::Password)) => {
+                                labels.push(if matches!(sess, AuthSession::Offline { .. }) { "opened-offline".to_string() } else { "opened".to_string() });
+                                pending = Some((sess, last_verified, sealed_here));
+                            }
+                            Ok((_, other)) => {
+                                pending = None;
+                                labels.push(format!("not-opened:{}", match other { PamAuthResponse::Unknown => "unknown", PamAuthResponse::Denied => "denied", _ => "other" }));
+                            }
+                            Err(()) => {
+                                pending = None;
+                                labels.push("not-opened:failed".to_string());
+                            }
                         }
                     }
-                    let n = peer.log_len();
-                    let r = m0.resolver.pam_account_authenticate(USER, OffsetDateTime::now_utc(), PW[*i]).await;
-                    let confirmed = peer.log_since(n).iter().any(|l| l == &format!("AUTH-OK {}", PW[*i]));
-                    let accepted = r == Ok(Some(true));
-                    if accepted && confirmed {
-                        last_verified = Some(*i);
-                        if !ever_verified.contains(i) {
-                            ever_verified.push(*i);
-                        }
-                        sealed_here = true;
-                        labels.push("accepted-online".to_string());
-                    } else if accepted {
-                        // nobody but the cache vouched for this password
-                        let unreachable = matches!(op, Op::Down(..));
-                        let key = if !sealed_here {
-                            Some("accepts_credential_sealed_by_another_machine")
-                        } else if last_verified == Some(*i) {
-                            None
-                        } else if ever_verified.contains(i) {
-                            Some("accepts_superseded_password")
-                        } else {
-                            Some("accepts_password_never_verified")
+                    Op::Close(i) => {
+                        let Some((mut sess, snap_last, snap_sealed)) = pending.take() else {
+                            labels.push("nothing-open".to_string());
+                            continue;
                         };
-                        if let Some(k) = key {
-                            viol.push(json!([k, format!("step {step} ({}): password `{}` accepted from the cache{}; last password the server confirmed to this machine: {:?}; cached credential sealed by this machine: {sealed_here}", op_str(op), PW[*i], if unreachable { " while the server was unreachable" } else { "" }, last_verified.map(|p| PW[p])), step]));
+                        let n = peer.log_len();
+                        let r = m0.resolver.pam_account_authenticate_step(&mut sess, PamAuthRequest::Password { cred: PW[*i].to_string() }).await;
+                        let confirmed = peer.log_since(n).iter().any(|l| l == &format!("AUTH-OK {}", PW[*i]));
+                        let accepted = matches!(r, Ok(PamAuthResponse::Success));
+                        if accepted && confirmed {
+                            last_verified = Some(*i);
+                            if !ever_verified.contains(i) {
+                                ever_verified.push(*i);
+                            }
+                            sealed_here = true;
+                            labels.push("accepted-online".to_string());
+                        } else if accepted {
+                            // judged against the machine as it was when the login was opened, or as it is now
+                            let fine = (snap_sealed && snap_last == Some(*i)) || (sealed_here && last_verified == Some(*i));
+                            if !fine {
+                                let k = if !snap_sealed && !sealed_here { "accepts_credential_sealed_by_another_machine" } else if ever_verified.contains(i) { "accepts_superseded_password" } else { "accepts_password_never_verified" };
+                                viol.push(json!([k, format!("step {step} ({}): a login opened earlier was answered with `{}` and accepted from the cache; last password the server confirmed to this machine: {:?} (when the login was opened: {:?})", op_str(op), PW[*i], last_verified.map(|p| PW[p]), snap_last.map(|p| PW[p])), step]));
+                            }
+                            labels.push("accepted-offline".to_string());
+                        } else {
+                            labels.push(match r { Ok(PamAuthResponse::Denied) => "denied".to_string(), Ok(_) => "other".to_string(), Err(()) => "failed".to_string() });
                         }
-                        labels.push(if unreachable { "accepted-offline".to_string() } else { "accepted-from-cache-while-reachable".to_string() });
-                    } else {
-                        labels.push(match r {
-                            Ok(Some(false)) => "denied".to_string(),
-                            Ok(None) => "unknown".to_string(),
-                            Ok(Some(true)) => "accepted".to_string(),
-                            Err(()) => "failed".to_string(),
-                        });
+                    }
+                    Op::Up(i) | Op::Down(_, i) => {
+                        match op {
+                            Op::Up(_) => {
+                                peer.with(|s| s.up = true);
+                                m0.resolver.mark_next_check_now(SystemTime::now()).await;
+                                let _ = m0.resolver.test_connection().await;
+                            }
+                            Op::Down(d, _) => set_down(peer, m0, *d).await,
+                            _ => {}
+                        }
+                        let n = peer.log_len();
+                        let r = m0.resolver.pam_account_authenticate(USER, OffsetDateTime::now_utc(), PW[*i]).await;
+                        let confirmed = peer.log_since(n).iter().any(|l| l == &format!("AUTH-OK {}", PW[*i]));
+                        let accepted = r == Ok(Some(true));
+                        if accepted && confirmed {
+                            last_verified = Some(*i);
+                            if !ever_verified.contains(i) {
+                                ever_verified.push(*i);
+                            }
+                            sealed_here = true;
+                            labels.push("accepted-online".to_string());
+                        } else if accepted {
+                            // nobody but the cache vouched for this password
+                            let unreachable = matches!(op, Op::Down(..));
+                            let key = if !sealed_here {
+                                Some("accepts_credential_sealed_by_another_machine")
+                            } else if last_verified == Some(*i) {
+                                None
+                            } else if ever_verified.contains(i) {
+                                Some("accepts_superseded_password")
+                            } else {
+                                Some("accepts_password_never_verified")
+                            };
+                            if let Some(k) = key {
+                                viol.push(json!([k, format!("step {step} ({}): password `{}` accepted from the cache{}; last password the server confirmed to this machine: {:?}; cached credential sealed by this machine: {sealed_here}", op_str(op), PW[*i], if unreachable { " while the server was unreachable" } else { "" }, last_verified.map(|p| PW[p])), step]));
+                            }
+                            labels.push(if unreachable { "accepted-offline".to_string() } else { "accepted-from-cache-while-reachable".to_string() });
+                        } else {
+                            labels.push(match r {
+                                Ok(Some(false)) => "denied".to_string(),
+                                Ok(None) => "unknown".to_string(),
+                                Ok(Some(true)) => "accepted".to_string(),
+                                Err(()) => "failed".to_string(),
+                            });
+                        }
                     }
                 }
             }
-        }
-        Ok(json!({"labels": labels, "viol": viol}))
-    });
-    for p in [&db0, &db1] {
-        for suffix in ["", "-wal", "-shm"] {
-            let _ = std::fs::remove_file(format!("{p}{suffix}"));
+            Ok(json!({"labels": labels, "viol": viol}))
+        });
+        match out {
+            Ok(v) => v,
+            Err(e) => json!({"error": e}),
         }
     }
-    match out {
-        Ok(v) => v,
-        Err(e) => json!({"error": e}),
+}
+
+async fn set_down(peer: &Peer, m0: &Machine, d: Down) {
+    peer.with(|s| s.up = false);
+    match d {
+        Down::Marked => m0.resolver.mark_offline().await,
+        Down::Refused => m0.resolver.mark_next_check_now(SystemTime::now()).await,
+        Down::Unnoticed => {}
     }
+}
+
+thread_local! {
+    static LAB: std::cell::RefCell<Option<Lab>> = const { std::cell::RefCell::new(None) };
+}
+
+/// run one sequence in this process's laboratory (made at first use)
+fn run_seq(dir: &std::path::Path, tag: usize, seq: &[Op]) -> Value {
+    LAB.with(|l| {
+        let mut l = l.borrow_mut();
+        if l.is_none() {
+            match Lab::new(dir, tag) {
+                Ok(x) => *l = Some(x),
+                Err(e) => return json!({"error": format!("laboratory: {e}")}),
+            }
+        }
+        match l.as_mut() {
+            Some(lab) => {
+                let v = lab.run(seq);
+                v
+            }
+            None => json!({"error": "laboratory"}),
+        }
+    })
 }
 
 pub fn run(args: &[String]) -> ! {
@@ -234,8 +368,26 @@ pub fn run(args: &[String]) -> ! {
             v
         })
         .filter(|v| !matches!(v[0], Op::Down(..)) && !matches!(v[v.len() - 1], Op::ChangePw | Op::Transplant))
-        .filter(|v| !quick || matches!(v[0], Op::Up(0) | Op::Transplant))
         .collect();
+    // interleaved logins: one login opened while unreachable and answered later, with one
+    // operation in between and a final login while unreachable
+    let mut all = all;
+    {
+        let firsts: Vec<Op> = if quick { vec![Op::Up(0)] } else { vec![Op::Up(0), Op::Rotate] };
+        let kinds: Vec<Down> = if quick { vec![Down::Marked] } else { vec![Down::Marked, Down::Refused] };
+        let mids: Vec<Op> = if quick { vec![Op::Up(0), Op::Rotate, Op::ChangePw, Op::Transplant, Op::Down(Down::Marked, 0)] } else { vec![Op::Up(0), Op::Up(1), Op::Rotate, Op::ChangePw, Op::Transplant, Op::Down(Down::Marked, 0)] };
+        for f in &firsts {
+            for k in &kinds {
+                for m in &mids {
+                    for c in 0..2usize {
+                        for fin in 0..2usize {
+                            all.push(vec![*f, Op::Open(*k), *m, Op::Close(c), Op::Down(Down::Marked, fin)]);
+                        }
+                    }
+                }
+            }
+        }
+    }
     let n = all.len();
     let decode = |k: usize| -> Vec<Op> { all[k].clone() };
     let res = match fork_map(16, n, |k| run_seq(&dir, k, &decode(k)).to_string()) {
@@ -259,12 +411,12 @@ pub fn run(args: &[String]) -> ! {
             if l == "accepted-offline" {
                 offline_accepts += 1;
             }
-            let kind = match seq[i] { Op::Up(_) | Op::Rotate => "reachable", Op::Down(Down::Marked, _) => "marked-offline", Op::Down(Down::Refused, _) => "connection-fails", Op::Down(Down::Unnoticed, _) => "failure-unnoticed", Op::ChangePw => "change", Op::Transplant => "transplant" };
+            let kind = match seq[i] { Op::Up(_) | Op::Rotate => "reachable", Op::Down(Down::Marked, _) => "marked-offline", Op::Down(Down::Refused, _) => "connection-fails", Op::Down(Down::Unnoticed, _) => "failure-unnoticed", Op::ChangePw => "change", Op::Transplant => "transplant", Op::Open(_) => "open", Op::Close(_) => "answer-later" };
             *outcomes.entry(format!("{kind}:{l}")).or_default() += 1;
         }
         for x in v["viol"].as_array().cloned().unwrap_or_default() {
             bad += 1;
-            let upto = x[2].as_u64().unwrap_or(depth as u64 - 1) as usize;
+            let upto = x[2].as_u64().unwrap_or(seq.len() as u64 - 1) as usize;
             let trace: Vec<String> = seq[..=upto.min(seq.len() - 1)].iter().map(op_str).collect();
             ctx.violation(x[0].as_str().unwrap_or("?"), x[1].as_str().unwrap_or(""), json!({"trace": trace}));
         }
@@ -284,7 +436,7 @@ pub fn run(args: &[String]) -> ! {
     ctx.set("mismatches", bad);
     ctx.set("exhaustive", true);
     ctx.set("alphabet", json!(alpha.iter().map(op_str).collect::<Vec<_>>()));
-    ctx.set("rule", format!("every sequence of exactly {depth} operations over the alphabet that does not start with a login while unreachable and does not end with an operation that is no login{} (shorter sequences are prefixes and are judged step by step), each on a fresh machine (real Resolver, KanidmProvider, software TPM with its own machine key, cache database on disk) talking to a scripted identity server over TCP; the second machine of `transplant` has its own TPM, machine key and database", if quick { "; quick tier: first operation = online login or transplant" } else { "" }));
+    ctx.set("rule", format!("every sequence of exactly {depth} operations over the alphabet that does not start with a login while unreachable and does not end with an operation that is no login{} (shorter sequences are prefixes and are judged step by step); plus the interleaved family [first login, open a login while unreachable, one operation, answer the open login, a login while unreachable], each on a machine whose cache has been emptied (real Resolver, KanidmProvider, software TPM with its own machine key, cache database on disk; one machine per worker process, reused between sequences) talking to a scripted identity server over TCP; the second machine of `transplant` has its own TPM, machine key and database", ""));
     ctx.assume("one-directional, as the statement is: an acceptance that the identity server did not confirm in that very login must be for the password the server most recently confirmed to this machine, and the cached credential must have been sealed on this machine; refusals are never judged");
     ctx.assume("the identity server is a scripted HTTP peer implementing /v1/self, /_unix/_token and /_unix/_auth; the TPM is kanidm-hsm-crypto's software TPM (a hardware TPM is not available here); `another machine` = another TPM instance with another machine key");
     ctx.finish();
